@@ -38,6 +38,45 @@ class AnalysisError(Exception):
     tracked region, tool failure).  Exit code 2, never a verdict."""
 
 
+def acopy(node):
+    """copy of an ast subtree (or list of nodes) that does not drag the rest of the module along: only syntax fields and position
+    attributes are copied; `parent` links are rebuilt inside the copy and the copy's root keeps the original's parent"""
+    if isinstance(node, list):
+        return [acopy(x) for x in node]
+    if not isinstance(node, ast.AST):
+        return node
+
+    def rec(n, parent):
+        new = n.__class__.__new__(n.__class__)
+        for f in n._fields:
+            if not hasattr(n, f):
+                continue
+            v = getattr(n, f)
+            if isinstance(v, list):
+                setattr(new, f, [rec(x, new) if isinstance(x, ast.AST) else x for x in v])
+            elif isinstance(v, ast.AST):
+                setattr(new, f, rec(v, new))
+            else:
+                setattr(new, f, v)
+        for a in n._attributes:
+            if hasattr(n, a):
+                setattr(new, a, getattr(n, a))
+        for k, v in getattr(n, "__dict__", {}).items():
+            if k not in n._fields and k not in n._attributes and k != "parent" and not hasattr(new, k):
+                try:
+                    setattr(new, k, v)
+                except Exception:  # noqa: BLE001
+                    pass
+        if parent is not None:
+            new.parent = parent
+        return new
+
+    out = rec(node, None)
+    if hasattr(node, "parent"):
+        out.parent = node.parent
+    return out
+
+
 def norm(node: ast.AST | str) -> str:
     """Whitespace-normalised source text of a node (the key of a construct)."""
     s = node if isinstance(node, str) else ast.unparse(node)
@@ -328,13 +367,13 @@ class Locals:
         class T(ast.NodeTransformer):
             def visit_Name(self, node: ast.Name):
                 if isinstance(node.ctx, ast.Load) and node.id in loc.defs and node.id not in stop and depth > 0 and loc._stable(loc.defs[node.id], at):
-                    return loc.expand(_copy.deepcopy(loc.defs[node.id].value), at, depth - 1, stop)
+                    return loc.expand(acopy(loc.defs[node.id].value), at, depth - 1, stop)
                 return node
 
             def visit_Lambda(self, node):
                 return node
 
-        new = T().visit(_copy.deepcopy(e))
+        new = T().visit(acopy(e))
         return new
 
     def text(self, e: ast.AST, at: Optional[ast.AST] = None, stop: Iterable[str] = ()) -> str:
